@@ -206,3 +206,18 @@ LEVEL_TEXT.update({
     'C08': 'Composition theorem in Coq (adaptor invariant by induction over the slice sizes + the C05 session induction): every datagram sequence, every slice-size sequence, unbounded sessions, both modes; one model for both adaptors, tied to the real blocking and tokio UdpStream over loopback sockets at adaptor level (scripted slice sizes incl. the 120-byte slices that exposed the original defect) and at session level (up to 900 frames / > 60 KB per session).',
 })
 NOT_APPLICABLE.pop('C08', None)
+
+PROPS.update({
+    'C20': dict(gens=['consts'], coq_targets=['Props/C20.vo'], coqchk_modules=['Props.C20'], group='net', harness='c20', axioms_allowed=[],
+        proved=['for every packet layer, list of complete frames, EVERY distribution of the byte stream over binary messages (one/several/split frames, any message size), any interleaving of non-binary and empty binary messages and every slice-size sequence: one result per frame in order, then Disconnected (composition of the adaptor invariant with the C05 session induction; unbounded)',
+                'this is literally the TCP session of the same stream under any TCP segmentation (c20_equals_tcp); removing the non-binary messages changes nothing (c20_non_binary_ignored)',
+                'closure: the adaptor reports end of stream and a read that has no complete frame returns Disconnected; the adaptor never loses/duplicates/reorders a byte for any slice sizes',
+                'a write hands the whole frame over as one binary message and reports it fully written (write_all finishes at once)'],
+        modelled=NET_MODELLED + ADAPTOR_MODELLED + ['tungstenite (WebSocket framing, masking, fragmentation, automatic pong, close handshake) and TLS are not modelled: a message is an item of the adaptor\'s input; they run for real in the correspondence (loopback tokio-tungstenite server)'],
+        assumptions=NET_ASSUME + ['closure = WebSocket close handshake (or an already-closed stream): tokio-tungstenite then ends the message stream; a TCP connection dropped WITHOUT a close handshake surfaces as an I/O error (observed, recorded in the evidence notes), which the property text does not cover',
+                                  'connect_to_lfsworld_relay_ws dials the constant relay address and cannot run offline; the adaptor is attached to a loopback server through the public From<WebSocketStream<MaybeTlsStream<TcpStream>>>']),
+})
+LEVEL_TEXT.update({
+    'C20': 'Composition theorem in Coq (adaptor invariant for all slice sizes + the C05 session induction) for every partition of the stream into binary messages with arbitrary interleaved non-binary messages, stated both absolutely and as equality with the TCP session; tied to the real WebsocketStream on a loopback tokio-tungstenite server at adaptor level (scripted slice sizes, messages up to 66 KB) and at session level (six partition styles, up to 700 frames, noise messages, close handshake), and for writes.',
+})
+NOT_APPLICABLE.pop('C20', None)
